@@ -927,12 +927,12 @@ static void sc_rand(int v) {
     unsigned st = (unsigned)(getenv("C13_RSEED") ? atoi(getenv("C13_RSEED")) : 1) * 7919u + (unsigned)v * 104729u + 17u;
     ZSTD_CCtx* c; ZSTD_DCtx* d; int step; static char* fr; static size_t frcap; size_t frn = 0; const char* frsrc = NULL; size_t frsz = 0;
     const char* dict = NULL; size_t dictSize = 0; int dictIsPrefix = 0; const char* fdict = NULL; size_t fdictSize = 0;
-    int workers = 0;
+    int workers = 0, level = 3;
     if (!fr) { frcap = ZSTD_compressBound(1600000) + 64; fr = (char*)__real_malloc(frcap); }
     mark("create"); c = mk_cctx(); if (!c) return; d = mk_dctx(); if (!d) { fr_cctx(c); return; }
     for (step = 0; step < 14; step++) {
         unsigned const r = rs_next(&st) % 10;
-        if (r == 0) { static const int lv[] = { 1, 3, 5, 9, 16 }; mark("level"); setp(c, ZSTD_c_compressionLevel, lv[rs_next(&st) % 5]); }
+        if (r == 0) { static const int lv[] = { 1, 3, 5, 9, 16 }; level = lv[rs_next(&st) % 5]; mark("level"); setp(c, ZSTD_c_compressionLevel, level); }
         else if (r == 1) { static const int nw[] = { 0, 1, 1, 2, 3 }; workers = nw[rs_next(&st) % 5]; mark("workers"); setp(c, ZSTD_c_nbWorkers, workers); if (workers) setp(c, ZSTD_c_jobSize, 1 << 19); }
         else if (r == 2) { static const int wl[] = { 0, 18, 21 }; mark("ldm-window"); setp(c, ZSTD_c_enableLongDistanceMatching, (int)(rs_next(&st) & 1) ? 1 : 0); setp(c, ZSTD_c_windowLog, wl[rs_next(&st) % 3]); setp(c, ZSTD_c_checksumFlag, (int)(rs_next(&st) & 1)); }
         else if (r == 3) {   /* dictionary */
@@ -943,10 +943,11 @@ static void sc_rand(int v) {
                        judge("loadDictionary", ZSTD_isError(rr), ZSTD_isError(rr) ? rr : 0, nf0, t); if (!ZSTD_isError(rr)) break; }
                    dict = g_dict; dictSize = g_dictSize; dictIsPrefix = 0; }
         }
-        else if (r == 4) { size_t rr; mark("reset-params"); beg("CCtx_reset", -1, -1); rr = ZSTD_CCtx_reset(c, ZSTD_reset_session_and_parameters); endc(ZSTD_isError(rr) ? "E" : "ok"); dict = NULL; dictSize = 0; dictIsPrefix = 0; workers = 0; }
+        else if (r == 4) { size_t rr; level = 3; mark("reset-params"); beg("CCtx_reset", -1, -1); rr = ZSTD_CCtx_reset(c, ZSTD_reset_session_and_parameters); endc(ZSTD_isError(rr) ? "E" : "ok"); dict = NULL; dictSize = 0; dictIsPrefix = 0; workers = 0; }
         else if (r <= 7) {   /* compression */
             static const size_t szs[] = { 1000, 30000, 200000, 700000, 1500000 }; size_t n = szs[rs_next(&st) % 5]; const char* src = g_src + (rs_next(&st) % 1000) * 100; int t;
             if (src + n > g_src + 2000000) n = 200000;
+            if (level >= 9 && n > 200000) n = 200000;   /* keeps a sweep of the slow strategies short */
             mark("compress");
             for (t = 0; t < MAXTRY; t++) {
                 int nf0 = g_nfailed; size_t rr;
